@@ -203,7 +203,7 @@ static int extfull(int k, int l, int bgbit, unsigned seed, int cases) {
             c->a[cc].coefsT[i] = (Torus32)v; }
         c->current_variance = 0; tLwePhase(pc, c, &key->tlwe_key);
         for (int f = 0; f < 3; f++) {       // 0: FFT in place, 1: coefficient domain in place, 2: coefficient domain into a separate result
-            if (f == 0) { tLweCopy(r, c, tp); tGswFFTExternMulToTLwe(r, gf, gp); } else if (f == 1) { tLweCopy(r, c, tp); tGswExternMulToTLwe(r, g, gp); } else tGswExternProduct(r, g, c, gp);
+            if (f == 0) { tLweCopy(r, c, tp); tGswFFTExternMulToTLwe(r, gf, gp); } else if (f == 1) { tLweCopy(r, c, tp); tGswExternMulToTLwe(r, g, gp); } else { for (int rep = 0; rep < 16; rep++) tGswExternProduct(r, g, c, gp); }      // the same const operand used sixteen times (CMux-tree style): it must not drift
             tLwePhase(pr, r, &key->tlwe_key);
             std::vector<long> pos; std::vector<uint32_t> vc, vr; for (int u = 0; u < 24; u++) { int i = u < 4 ? (u * 341) % N : (int)rng.below(N); int src = ((i - j) % N + N) % N; pos.push_back(i); vr.push_back((uint32_t)pr->coefsT[i]); vc.push_back((uint32_t)pc->coefsT[src]); }
             VH_B; vh_s("k", "extfull"); VH_C; vh_i("f", f); VH_C; vh_i("kk", k); VH_C; vh_i("l", l); VH_C; vh_i("bg", bgbit); VH_C; vh_i("j", j); VH_C; vh_i("sgn", sgn); VH_C; vh_i("pat", pat); VH_C; il("pos", pos); VH_C; wl("pc", vc); VH_C; wl("pr", vr); VH_E;
